@@ -328,7 +328,16 @@ func init() {
 				}
 				e.frameCheck(st, al.Loc, al.Cond, "asn1.Unmarshal target", pos)
 				old := e.loadLoc(st, al.Loc)
+				// like encoding/json, encoding/asn1 leaves parts of the target it
+				// does not decode (e.g. an interface field for a NULL value)
+				// untouched: only a target still holding its zero value receives
+				// the pure decoding
+				pristine := len(al.Loc.Path) == 0 && al.Loc.Obj.zeroInit != nil && st.mem[al.Loc.Obj] == al.Loc.Obj.zeroInit
 				nv := e.merge(ok, dec, e.havocLike(old, "asn1_partial"))
+				if !pristine {
+					nv = e.havocLike(old, "asn1_merged")
+					e.Externs["encoding/asn1.Unmarshal into a target that may already hold data: result treated as an arbitrary merge"] = true
+				}
 				if !al.Cond.IsTrue() {
 					nv = e.merge(al.Cond, nv, old)
 				}
@@ -358,8 +367,8 @@ func init() {
 				e.addAxioms(c.BVSle(bv64(c, 0), now.T), c.BVSle(now.T, c.BVC(1<<61, 64)))
 				ng["now"] = now
 			}
-			ng["deadline"] = Scalar{T: c.BVAdd(now.T, d), Typ: intTyp}
-			ng["start"] = now
+			// the deadline of the context (what <-ctx.Done() waits for)
+			ng["ctxdeadline"] = Scalar{T: c.BVAdd(now.T, d), Typ: intTyp}
 			st.ghost = ng
 			ctx := e.fresh(f.Signature.Results().At(0).Type(), "ctx").(*IfaceV)
 			e.addAxioms(c.Not(e.ifaceNil(ctx)))
